@@ -194,7 +194,10 @@ func invokeModel(c *ssa.CallCommon) *model {
 
 func (st *fstate) call(c ssa.CallInstruction) {
 	cc := c.Common()
-	var res ssa.Value = c.Value() // nil for go/defer
+	var res ssa.Value // nil for go/defer (Value() returns a typed nil *ssa.Call there)
+	if v := c.Value(); v != nil {
+		res = v
+	}
 	in := c.(ssa.Instruction)
 	setRes := func(idx int, s set) {
 		if res == nil {
@@ -308,6 +311,20 @@ func (st *fstate) call(c ssa.CallInstruction) {
 				}
 			}
 			return
+		}
+		// sync.Pool is synchronised internally: Get hands out an object that is not caller memory, Put stores its
+		// operand's pointers in the pool (an escape, not an unsynchronised write)
+		if callee.Pkg != nil && callee.Pkg.Pkg.Path() == "sync" && callee.Signature.Recv() != nil && strings.HasSuffix(callee.Signature.Recv().Type().String(), "sync.Pool") {
+			switch callee.Name() {
+			case "Get":
+				setRes(0, set{st.site(res, "F"): true})
+				return
+			case "Put":
+				if len(args) >= 2 {
+					st.store(st.get(args[0]), st.get(args[1]))
+				}
+				return
+			}
 		}
 		m := externalModel(callee)
 		if m != nil {
